@@ -38,10 +38,43 @@ func mandatedFirstByte(b byte) bool {
 	return fl == 0
 }
 
+// keptUndefined holds Undefined packets returned earlier in this test with
+// the bodies they must still carry.
+var keptUndefined []struct {
+	p    *mq.Undefined
+	body []byte
+}
+
+func checkKeptUndefined() (sig, msg string) {
+	for _, k := range keptUndefined {
+		if !bytes.Equal(k.p.Data(), k.body) {
+			return "undefined-data-changed-later", fmt.Sprintf("an Undefined returned earlier carried %s, after reading other packets its Data() is %s", hx(k.body), hx(k.p.Data()))
+		}
+	}
+	return "", ""
+}
+
 func checkC16(frame []byte) (sig, msg string) {
+	sig, msg = checkC16via(frame, false)
+	if msg == "" {
+		// the same frame from a reader that stalls: a (0, nil) read before the
+		// first byte and between header and body
+		sig, msg = checkC16via(frame, true)
+	}
+	if msg == "" {
+		sig, msg = checkKeptUndefined()
+	}
+	return
+}
+
+func checkC16via(frame []byte, stalling bool) (sig, msg string) {
 	b := frame[0]
 	typ := int(b >> 4)
 	q, err, pan := read(frame)
+	if stalling {
+		sr := &guard.ScriptReader{Data: frame, Steps: []guard.Step{{N: 0}, {N: 1}, {N: 0}, {N: 1}, {N: 0}}}
+		pan = guard.Call(func() { q, err = mq.ReadPacket(sr) })
+	}
 	if pan != nil {
 		return "panic", fmt.Sprintf("ReadPacket panicked on %s: %v", hx(frame), pan.Value)
 	}
@@ -63,6 +96,12 @@ func checkC16(frame []byte) (sig, msg string) {
 	case *mq.Undefined:
 		if !bytes.Equal(p.Data(), body) {
 			return "undefined-data", fmt.Sprintf("Undefined.Data() = %s, frame body = %s", hx(p.Data()), hx(body))
+		}
+		if len(keptUndefined) < 64 {
+			keptUndefined = append(keptUndefined, struct {
+				p    *mq.Undefined
+				body []byte
+			}{p, append([]byte(nil), body...)})
 		}
 		return "", ""
 	case *mq.Publish:
@@ -87,6 +126,7 @@ func defaultNibble(typ uint8) byte {
 
 func TestC16(t *testing.T) {
 	curProp = "C16"
+	keptUndefined = nil
 	r := vf.NewRec("C16")
 	defer r.Finish(t)
 	guard.StartWatchdog(*vf.Out, "C16")
